@@ -8,13 +8,23 @@ From L2 Require Import Model Base Own.
 Definition chain (fr : frame) : bool := match fr with FWake _ | FUnpark _ | FRQ1 | FRQ2 => true | _ => false end.
 Fixpoint below (st : list frame) : list frame :=      (* what lies below the first non-chain frame *)
   match st with [] => [] | fr :: r => if chain fr then below r else r end.
-Definition mshape (st : list frame) : Prop := cntf marker (below st) = 0.
+Definition toponly (fr : frame) : bool := match fr with FD2 | FWakeWith _ _ => true | _ => false end.
+(* no marker and no waker-call frame below the first frame that is not a waker call; FD2 / FWakeWith only on top *)
+Definition mshape (st : list frame) : Prop :=
+  cntf marker (below st) = 0 /\ cntf chain (below st) = 0 /\ cntf toponly (tail st) = 0.
 Definition Inv_shape (s : state) : Prop := forall c st, stacks s !! c = Some st -> mshape st.
 
 Lemma below_chain pre st : forallb chain pre = true -> below (pre ++ st) = below st.
 Proof. induction pre as [|x pre IH]; cbn; [done|]. intros [H1 H2]%andb_true_iff. rewrite H1. by apply IH. Qed.
-Lemma below_le st : cntf marker (below st) <= cntf marker st.
-Proof. induction st as [|x st IH]; cbn; [lia|]. destruct (chain x); destruct (marker x); lia. Qed.
+Lemma below_le P st : cntf P (below st) <= cntf P st.
+Proof. induction st as [|x st IH]; cbn; [lia|]. destruct (chain x); destruct (P x); lia. Qed.
+Lemma toponly_chain pre st : forallb chain pre = true -> cntf toponly (tail st) = 0 -> cntf toponly (below st) = 0 ->
+  cntf toponly (tail (pre ++ st)) <= cntf toponly st.
+Proof.
+  intros H. destruct pre as [|x pre]; cbn; [intros; destruct st; cbn in *; lia|]. intros _ _.
+  apply andb_true_iff in H as [_ H]. rewrite cntf_app. assert (cntf toponly pre = 0); [|lia].
+  clear -H. induction pre as [|y pre IH]; cbn in *; [done|]. apply andb_true_iff in H as [H1 H2]. rewrite IH by done. by destruct y.
+Qed.
 Lemma chain_wake_frames ws : forallb chain (wake_frames ws) = true.
 Proof. induction ws as [|w ws IH]; [done|]. exact IH. Qed.
 Lemma chain_opt_wake ow : forallb chain (opt_wake ow) = true. Proof. by destruct ow. Qed.
@@ -37,10 +47,16 @@ Section Pres.
     all: pose proof (stacks_lookup _ _ _ Ea) as Hst; rewrite Est in Hst.
     all: eapply (shape_update s _ a _ _ HI Hst); [solve_stacks|].
     all: try match goal with k : kont |- _ => destruct k end.
-    all: unfold mshape; cbn; try done.
-    all: try (rewrite below_chain by (first [apply chain_wake_frames|apply chain_opt_wake]); cbn; try done).
-    all: try (intros H; pose proof (below_le rest); lia).
-    all: intros H; destruct (getdw s d) as [? [w'|]]; injection E as <- <-; cbn; done.
+    all: pose proof (below_le marker rest) as B1; pose proof (below_le chain rest) as B2; pose proof (below_le toponly rest) as B3.
+    all: assert (B4 : cntf toponly (tail rest) <= cntf toponly rest) by (destruct rest as [|? ?]; cbn; [lia|]; match goal with |- _ <= (if ?b then _ else _) + _ => destruct b; lia end).
+    all: unfold mshape; cbn; intros (H1 & H2 & H3).
+    all: try (repeat split; lia).
+    (* opt_wake / wake_frames prefixes *)
+    all: try (rewrite !below_chain by (first [apply chain_wake_frames|apply chain_opt_wake]); cbn).
+    all: try (match goal with |- context [tail (?pre ++ ?st)] =>
+              pose proof (toponly_chain pre st ltac:(first [apply chain_wake_frames|apply chain_opt_wake])) as B5; cbn in B5 end).
+    all: try (repeat split; lia).
+    all: destruct (getdw s d) as [? [w'|]]; injection E as <- <-; cbn in *; repeat split; lia.
   Qed.
 End Pres.
 
@@ -57,4 +73,4 @@ Qed.
 
 (* the use: a stack whose top is neither a waker-call frame nor a marker carries no marker at all *)
 Lemma shape_top_plain s a fr rest : Inv_shape s -> stacks s !! a = Some (fr :: rest) -> chain fr = false -> cntf marker rest = 0.
-Proof. intros HI Ha Hc. specialize (HI a _ Ha). unfold mshape in HI. cbn in HI. by rewrite Hc in HI. Qed.
+Proof. intros HI Ha Hc. destruct (HI a _ Ha) as [H _]. cbn in H. by rewrite Hc in H. Qed.
